@@ -254,7 +254,7 @@ def native_build(ctx, ob, outdir):
     exe = os.path.join(outdir, 'replay')
     cmd = ['gcc', '-w', '-O0', '-g', '-fsanitize=address,undefined', '-fno-omit-frame-pointer', '-DVF_NATIVE', '-DHAVE_CONFIG_H',
            '-I' + REPO, '-I' + SRC, '-I' + SUPPORT, '-I' + HARNESS] + ob.defflags() + \
-          [os.path.join(HARNESS, ob.harness), os.path.join(SUPPORT, 'vf_native.c'), '-Wl,--allow-multiple-definition', lib,
+          [os.path.join(HARNESS, ob.harness), os.path.join(SUPPORT, 'vf_native.c'), '-Wl,--allow-multiple-definition', '-Wl,--wrap=malloc,--wrap=calloc,--wrap=realloc', lib,
            '-lyaml', '-lm', '-o', exe]
     r = subprocess.run(cmd, capture_output=True, text=True)
     if r.returncode != 0: raise RuntimeError('native build: ' + r.stderr[-3000:])
